@@ -194,6 +194,23 @@ def run(tier):
     for text, want, wlog in inc_cases:
         cases.append({'text': text, 'globals': {}, 'max': 2000, 'files': {'inc.bare': inc_file}, 'want_model': True})
         meta.append(('include-in-function', want, wlog))
+    # a "..." parameter is a FRESH array at every call - also when the function is reached through a systemPartial called without further
+    # arguments, and also when it is the only parameter
+    cases.append({'text': "function acc(items...):\n    arrayPush(items, arrayLength(items))\n    return arrayLength(items)\nendfunction\n"
+                          "pp = systemPartial(acc, 1, 2)\na = pp()\nb = pp()\nc = pp(9)\nd = pp()\nreturn arrayNew(a, b, c, d, acc(), acc(5), acc())\n",
+                  'globals': {}, 'max': 2000, 'want_model': True})
+    meta.append('seed')
+    cases.append({'text': "function tail(first, rest...):\n    arrayPush(rest, first)\n    return rest\nendfunction\n"
+                          "pp = systemPartial(tail, 1)\nqq = systemPartial(tail, 1, 2)\nreturn arrayNew(pp(), pp(), qq(), qq(), qq(3), tail(), tail(7))\n",
+                  'globals': {}, 'max': 2000, 'want_model': True})
+    meta.append('seed')
+    # the library is added to the globals WHATEVER single library name the host has pre-populated (every name in turn; the host's value stays)
+    lib_names = re.findall(r"^    '(\w+)': _\w+,?$", open(core.REPO + '/src/bare_script/library.py', encoding='utf-8').read().split('SCRIPT_FUNCTIONS = {')[1].split('}')[0], re.M)
+    for nm in lib_names:
+        text = "return objectGet(objectNew('a', 5), 'a')\n" if nm in ('arrayLength', 'arrayNew', 'stringLength') else \
+            "return arrayLength(arrayNew(1, 2)) + stringLength('abc')\n"
+        cases.append({'text': text, 'globals': {nm: ['str', 'host']}, 'max': 100})
+        meta.append(('host-shadows-one-name', nm, None))
     n = 900 if tier == 'quick' else 6000
     for _ in range(n):
         pool = interp.Pool()
@@ -269,6 +286,13 @@ def run(tier):
                 chk.oracle_fail.append({'class': 'include-inside-a-function-does-not-run-in-global-scope', **info, 'expected': {'res': m[1], 'log': m[2]},
                                         'got': {k: res.get(k) for k in ('res', 'rt', 'log')}})
             continue
+        if tag == 'host-shadows-one-name':
+            got = interp.plain_of_tree(res['res']) if 'res' in res else None
+            kept = dict((k, v) for k, v in res.get('globals', [])).get(m[1])
+            if got != 5.0 or kept != ['str', 'host']:
+                chk.oracle_fail.append({'class': 'library-not-added-when-the-host-shadows-one-name', **info, 'expected': {'res': 5.0, m[1]: 'host'},
+                                        'got': {'res': res.get('res') or res.get('rt'), m[1]: kept}})
+            continue
         if tag == 'shadow-null':
             if res.get('rt') != f'Undefined function "{m[2]}"':
                 chk.oracle_fail.append({'class': 'name-bound-to-null-does-not-win-over-built-in', **info, 'bound_in': m[1],
@@ -282,6 +306,8 @@ def run(tier):
                                         **info, 'bound_in': m[1], 'expected': want, 'got': res.get('res')})
             continue
         if 'model' not in res:
+            if tag == 'seed':
+                chk.oracle_fail.append({'class': 'hand-seed-does-not-parse', **info, 'got': res.get('parse')})
             continue
         g = ref_globals(cases[i]['globals'])
         ref = refinterp.Ref(g, cases[i]['max'], 'jump')
@@ -315,7 +341,7 @@ def run(tier):
         idx = [i for i, m in enumerate(meta) if m in ('seed', 'program') and 'model' in impl[i] and 'host' not in impl[i]]
         budget = 350 if tier == 'quick' else 3000
         if len(idx) > budget:
-            idx = idx[:6] + sorted(r.sample(idx[6:], budget - 6))
+            idx = idx[:8] + sorted(r.sample(idx[8:], budget - 8))
         idx = inc_idx + idx
         terms, used = [], []
         for i in idx:
